@@ -35,6 +35,13 @@ FLAVOURS = {
     # the flags configure picks (AX_CXX_MINOPT): -O0, no unsafe math
     "plain": {"cxx": ["-O0"] + BASE, "exc": False, "ld": []},
     "opt": {"cxx": ["-O2"] + BASE, "exc": False, "ld": []},
+    # further configurations for C09's thorough tier: -O3, and another compiler (clang 14, library objects only; the harness needs g++ for __float128)
+    "opt3": {"cxx": ["-O3"] + BASE, "exc": False, "ld": []},
+    "clang": {"cxx": ["-O2"] + BASE, "exc": False, "ld": [], "cc": "clang++"},
+    # clang 14's ASan+UBSan (its -fsanitize=undefined has checks g++ lacks, e.g. calls through a function pointer of the wrong type); harness built by clang too
+    # (object-size is switched off: known false alarm of clang 14 on empty classes with zero-length arrays)
+    "clang-asan": {"cxx": ["-O1"] + BASE + SAN + ["-fsanitize=function,float-cast-overflow", "-fno-sanitize=object-size"], "exc": True,
+                   "ld": SAN + ["-fsanitize=function,float-cast-overflow", "-fno-sanitize=object-size"], "cc": "clang++", "hcc": "clang++"},
     "exc": {"cxx": ["-O0"] + BASE, "exc": True, "ld": []},
     "asan": {"cxx": ["-O1"] + BASE + SAN, "exc": False, "ld": SAN},
     "exc-asan": {"cxx": ["-O1"] + BASE + SAN, "exc": True, "ld": SAN},
@@ -78,7 +85,7 @@ def src_files(src):
 
 def src_key(flavour):
     fl = FLAVOURS[flavour]
-    return _sha(src_files(os.path.join(repo(), "src")), flavour + " ".join(fl["cxx"]) + str(fl["exc"]))
+    return _sha(src_files(os.path.join(repo(), "src")), flavour + " ".join(fl["cxx"]) + str(fl["exc"]) + fl.get("cc", ""))
 
 
 def gen_headers(src, out):
@@ -160,7 +167,7 @@ def build_lib(flavour, quiet=False):
 
         def cc(n):
             o = os.path.join(d, n[:-4] + ".o")
-            return _run([CXX] + fl["cxx"] + ["-DHAVE_CONFIG_H", "-I", d, "-I", src, "-c", os.path.join(src, n), "-o", o], log)
+            return _run([fl.get("cc", CXX)] + fl["cxx"] + ["-DHAVE_CONFIG_H", "-I", d, "-I", src, "-c", os.path.join(src, n), "-o", o], log)
 
         with ThreadPoolExecutor(16) as ex:
             rcs = list(ex.map(cc, names))
@@ -193,8 +200,8 @@ def build_bin(flavour, name, sources, extra_cxx=(), extra_ld=(), opt=None, whole
     srcs = [os.path.join(HARNESS, s) for s in sources]
     cxx = list(fl["cxx"])
     if opt:  # harness-side optimisation (the oracle is ours; the library keeps its own flags)
-        cxx = [opt if f in ("-O0", "-O1", "-O2") else f for f in cxx]
-    hkey = _sha(srcs + harness_headers(), name + " ".join(cxx) + " ".join(extra_cxx) + " ".join(extra_ld) + str(whole_archive))
+        cxx = [opt if f in ("-O0", "-O1", "-O2", "-O3") else f for f in cxx]
+    hkey = _sha(srcs + harness_headers(), name + " ".join(cxx) + " ".join(extra_cxx) + " ".join(extra_ld) + str(whole_archive) + fl.get("hcc", ""))
     bd = os.path.join(libd, "bin-" + hkey)
     exe = os.path.join(bd, name)
     with open(os.path.join(libd, "bin-%s.lock" % hkey), "w") as lk:
@@ -211,7 +218,7 @@ def build_bin(flavour, name, sources, extra_cxx=(), extra_ld=(), opt=None, whole
             if s.endswith(".c"):
                 cmd = ["gcc"] + [f for f in cxx if not f.startswith("-std=")] + ["-I", libd, "-I", HARNESS, "-c", s, "-o", o]
             else:
-                cmd = [CXX] + cxx + list(extra_cxx) + ["-I", libd, "-I", src, "-I", HARNESS, "-c", s, "-o", o]
+                cmd = [fl.get("hcc", CXX)] + cxx + list(extra_cxx) + ["-I", libd, "-I", src, "-I", HARNESS, "-c", s, "-o", o]
             return _run(cmd, log), o
 
         with ThreadPoolExecutor(16) as ex:
@@ -219,7 +226,7 @@ def build_bin(flavour, name, sources, extra_cxx=(), extra_ld=(), opt=None, whole
         if any(r for r, _ in res):
             raise BuildError("harness build failed (%s/%s): see %s\n%s" % (flavour, name, log, open(log, errors="replace").read()[-4000:]))
         tmp = exe + ".tmp"
-        cmd = [CXX] + fl["ld"] + ["-o", tmp] + [o for _, o in res] + (["-Wl,--whole-archive", os.path.join(libd, "libmasa.a"), "-Wl,--no-whole-archive"] if whole_archive else [os.path.join(libd, "libmasa.a")]) + list(extra_ld) + ["-lquadmath", "-lm"]
+        cmd = [fl.get("hcc", CXX)] + fl["ld"] + ["-o", tmp] + [o for _, o in res] + (["-Wl,--whole-archive", os.path.join(libd, "libmasa.a"), "-Wl,--no-whole-archive"] if whole_archive else [os.path.join(libd, "libmasa.a")]) + list(extra_ld) + ([] if fl.get("hcc") else ["-lquadmath"]) + ["-lm"]
         if _run(cmd, log):
             raise BuildError("harness link failed (%s/%s): see %s\n%s" % (flavour, name, log, open(log, errors="replace").read()[-4000:]))
         os.rename(tmp, exe)
